@@ -27,14 +27,78 @@ import (
 type ins struct {
 	off  int
 	text string
+	del  int // bytes replaced at off (0 = pure insertion)
+}
+
+// mutexNames collects, from every non-test file of the directory, the names of
+// struct fields and variables declared as sync.Mutex / sync.RWMutex (value:
+// false) or as pointers to them (true).
+func mutexNames(dir string) map[string]bool {
+	out := map[string]bool{}
+	ents, _ := os.ReadDir(dir)
+	for _, e := range ents {
+		n := e.Name()
+		if filepath.Ext(n) != ".go" || len(n) > 8 && n[len(n)-8:] == "_test.go" {
+			continue
+		}
+		fs := token.NewFileSet()
+		f, err := parser.ParseFile(fs, filepath.Join(dir, n), nil, 0)
+		if err != nil {
+			continue
+		}
+		isMu := func(t ast.Expr) (bool, bool) {
+			ptr := false
+			if st, ok := t.(*ast.StarExpr); ok {
+				t, ptr = st.X, true
+			}
+			if se, ok := t.(*ast.SelectorExpr); ok {
+				if id, ok := se.X.(*ast.Ident); ok && id.Name == "sync" && (se.Sel.Name == "Mutex" || se.Sel.Name == "RWMutex") {
+					return true, ptr
+				}
+			}
+			return false, false
+		}
+		ast.Inspect(f, func(n ast.Node) bool {
+			switch n := n.(type) {
+			case *ast.Field:
+				if ok, ptr := isMu(n.Type); ok {
+					for _, id := range n.Names {
+						out[id.Name] = ptr
+					}
+				}
+			case *ast.ValueSpec:
+				if n.Type != nil {
+					if ok, ptr := isMu(n.Type); ok {
+						for _, id := range n.Names {
+							out[id.Name] = ptr
+						}
+					}
+				}
+			}
+			return true
+		})
+	}
+	return out
 }
 
 func main() {
-	if len(os.Args) != 4 {
-		fmt.Fprintln(os.Stderr, "usage: yieldinst in.go out.go verifsim-import-path")
+	if len(os.Args) != 4 && len(os.Args) != 5 {
+		fmt.Fprintln(os.Stderr, "usage: yieldinst in.go out.go verifsim-import-path [coop]")
 		os.Exit(2)
 	}
 	in, out, imp := os.Args[1], os.Args[2], os.Args[3]
+	// "coop": Lock/RLock/Unlock/RUnlock calls on the package's own sync.Mutex /
+	// sync.RWMutex fields and variables become verifyield.Lock(&x) ...: a
+	// goroutine that has to wait for such a lock then waits on a channel, which
+	// testing/synctest counts as durably blocked, so that a lock held across a
+	// simulated slow call delays the others in fake time instead of stopping the
+	// fake clock for good (a goroutine blocked in sync.Mutex.Lock is never idle
+	// for synctest).
+	coop := len(os.Args) == 5 && os.Args[4] == "coop"
+	var muNames map[string]bool
+	if coop {
+		muNames = mutexNames(filepath.Dir(in))
+	}
 	src, err := os.ReadFile(in)
 	if err != nil {
 		fmt.Fprintln(os.Stderr, err)
@@ -52,13 +116,13 @@ func main() {
 		return fmt.Sprintf("verifyield.Yield(%q); ", fmt.Sprintf("%s@%s:%d", kind, base, fset.Position(p).Line))
 	}
 	before := func(kind string, s ast.Stmt) {
-		edits = append(edits, ins{fset.Position(s.Pos()).Offset, site(kind, s.Pos())})
+		edits = append(edits, ins{fset.Position(s.Pos()).Offset, site(kind, s.Pos()), 0})
 	}
 	bodyTop := func(kind string, b *ast.BlockStmt) {
 		if b == nil {
 			return
 		}
-		edits = append(edits, ins{fset.Position(b.Lbrace).Offset + 1, " " + site(kind, b.Lbrace)})
+		edits = append(edits, ins{fset.Position(b.Lbrace).Offset + 1, " " + site(kind, b.Lbrace), 0})
 	}
 	// A statement may only be prefixed where a statement list is: blocks, case
 	// clauses and comm clauses. (An "if x := f(); ..." init statement is not.)
@@ -91,6 +155,37 @@ func main() {
 	}
 	ast.Inspect(f, func(n ast.Node) bool {
 		switch n := n.(type) {
+		case *ast.CallExpr:
+			if !coop || len(n.Args) != 0 {
+				break
+			}
+			fn, ok := n.Fun.(*ast.SelectorExpr)
+			if !ok {
+				break
+			}
+			switch fn.Sel.Name {
+			case "Lock", "RLock", "Unlock", "RUnlock":
+			default:
+				return true
+			}
+			name := ""
+			switch x := fn.X.(type) {
+			case *ast.Ident:
+				name = x.Name
+			case *ast.SelectorExpr:
+				name = x.Sel.Name
+			}
+			ptr, known := muNames[name]
+			if !known {
+				break
+			}
+			a, b := fset.Position(n.Pos()).Offset, fset.Position(n.End()).Offset
+			recv := string(src[fset.Position(fn.X.Pos()).Offset:fset.Position(fn.X.End()).Offset])
+			amp := "&"
+			if ptr {
+				amp = ""
+			}
+			edits = append(edits, ins{a, "verifyield." + fn.Sel.Name + "(" + amp + recv + ")", b - a})
 		case *ast.BlockStmt:
 			stmts(n.List)
 		case *ast.CaseClause:
@@ -105,10 +200,17 @@ func main() {
 		return true
 	})
 	n := len(edits)
-	sort.SliceStable(edits, func(i, j int) bool { return edits[i].off > edits[j].off })
+	// back to front; at one offset the replacement goes first, so that the
+	// insertion ends up in front of the replaced text
+	sort.SliceStable(edits, func(i, j int) bool {
+		if edits[i].off != edits[j].off {
+			return edits[i].off > edits[j].off
+		}
+		return edits[i].del > edits[j].del
+	})
 	buf := append([]byte(nil), src...)
 	for _, e := range edits {
-		buf = append(buf[:e.off], append([]byte(e.text), buf[e.off:]...)...)
+		buf = append(buf[:e.off], append([]byte(e.text), buf[e.off+e.del:]...)...)
 	}
 	// the import goes right after the package clause (own declaration: legal
 	// before any other import declaration)
